@@ -20,7 +20,8 @@ ASSUMPTIONS = [
     "G2: getnameinfo(NI_NUMERICHOST|NI_NUMERICSERV) returns the canonical text (inet_ntop) and the decimal port; checked on every literal",
     "service names are resolved by the image's services database; names absent from it are skipped (count recorded)",
 ]
-TRUSTED = ["glibc getaddrinfo / getnameinfo / inet_ntop (ground truth of the literal text)",
+TRUSTED = ["tools/cxx2lean.py (source-derived tie, DESIGN.md 0.7): clang-14 JSON AST, chrono unit semantics read from the desugared types, unbounded Int for signed arithmetic (overflow = UB), abstract memcmp / container queries",
+           "glibc getaddrinfo / getnameinfo / inet_ntop (ground truth of the literal text)",
            "libstdc++ std::stoll / std::to_string semantics (modelled, not verified)"]
 ALL_TAGS = ["op.uri", "op.pair", "op.lit", "op.name", "uri", "pair", "ok", "throw.runtime_error", "throw.out_of_range",
             "throw.system_error", "gai", "gai.numericserv", "legacy.match"]
